@@ -263,8 +263,16 @@ def rule_callbacks(ctx, rule):
         if "/demos/" in m.relpath or not m.relpath.startswith("yowsup/layers/"):
             continue
         for c in m.classes.values():
+            # which methods are event callbacks: the table the layer's own constructor registers (decorators applied by
+            # the interpreter); the decorators are read off the source only when that cannot be followed
+            from ..layers import event_handlers
+            table = event_handlers(repo, c) if repo.cls(LAYERS, "YowLayer") in repo.mro(c) else None
+            registered = set(table.values()) if table is not None else None
             for name, f in sorted(c.methods.items()):
-                if not any(isinstance(d, ast.Call) and unparse(d.func).split(".")[-1] == "EventCallback" for d in f.decorator_list):
+                if registered is not None:
+                    if name not in registered:
+                        continue
+                elif not any(isinstance(d, ast.Call) and unparse(d.func).split(".")[-1] == "EventCallback" for d in f.decorator_list):
                     continue
                 n += 1
                 w = where(m.relpath, "%s.%s" % (c.name, name), f.lineno)
